@@ -404,23 +404,28 @@ def blocks_rule(ctx, p, K):
                 "autoarray.inversion.inversion.abstract:AbstractInversion.mapper_edge_pixel_list"):
         g = p.func(key)
         pr = [c for c in g.calls() if isinstance(c.func, ast.Attribute) and c.func.attr == "param_range_list_from"]
-        ok = len(pr) == 1 and norm_text(wire.kw(pr[0]).get("cls") or (pr[0].args[0] if pr[0].args else None)) == "LinearObj"
         zips = [c for c in g.calls() if isinstance(c.func, ast.Name) and c.func.id == "zip"]
-        def aligned(a):
-            """self.linear_obj_list, or a plain (non-cached) property of the inversion that maps it element by element, unfiltered"""
-            t = norm_text(a)
-            if t == "self.linear_obj_list":
-                return True
-            if isinstance(a, ast.Attribute) and isinstance(a.value, ast.Name) and a.value.id == "self" and g.cls is not None:
-                pr_ = g.cls.lookup(a.attr)
-                rets_ = wire.returns_of(pr_) if pr_ is not None and pr_.is_property else []
-                if len(rets_) == 1 and isinstance(rets_[0].value, ast.ListComp) and len(rets_[0].value.generators) == 1:
-                    gen = rets_[0].value.generators[0]
-                    return norm_text(gen.iter) == "self.linear_obj_list" and not gen.ifs
-            return False
-        ok = ok and len(zips) == 1 and any(aligned(a) for a in zips[0].args)
+        lps = [n for n in g.body_nodes() if isinstance(n, ast.For)]
+        pairings = [wire.range_pairing(g, l) for l in lps]
+        pairings = [x for x in pairings if x is not None]
+        ok = len(pr) == 1 and len(pairings) == 1 and pairings[0]["sound"]
+        if len(pr) == 1 and not pairings:
+            # the ranges of all objects may also be zipped with a plain (non-cached) property of the inversion that maps the object list element by element, unfiltered
+            ok = norm_text(wire.kw(pr[0]).get("cls") or (pr[0].args[0] if pr[0].args else None)) == "LinearObj"
+            def aligned(a):
+                t = norm_text(a)
+                if t == "self.linear_obj_list":
+                    return True
+                if isinstance(a, ast.Attribute) and isinstance(a.value, ast.Name) and a.value.id == "self" and g.cls is not None:
+                    pr_ = g.cls.lookup(a.attr)
+                    rets_ = wire.returns_of(pr_) if pr_ is not None and pr_.is_property else []
+                    if len(rets_) == 1 and isinstance(rets_[0].value, ast.ListComp) and len(rets_[0].value.generators) == 1:
+                        gen = rets_[0].value.generators[0]
+                        return norm_text(gen.iter) == "self.linear_obj_list" and not gen.ifs
+                return False
+            ok = ok and len(zips) == 1 and any(aligned(a) for a in zips[0].args)
         ctx.ob(rule, key + ":aligned", ok, where=g, node=pr[0] if pr else g.node, construct=norm_text(zips[0]) if zips else "",
-               message="index lists must pair self.linear_obj_list with the ranges of ALL linear objects (cls=LinearObj) so that entries stay aligned")
+               message="index lists must pair the objects with index-aligned ranges: self.linear_obj_list with the ranges of ALL linear objects (cls=LinearObj), or the instances of one class with the ranges of that same class")
 
 
 def _slice_parts(ix):
